@@ -289,3 +289,43 @@ pub fn core(rest: &str) -> String {
         Err(e) => format!("code=[{}] consts=[{}] rterr {}", code, consts.join("|"), e.line),
     }
 }
+
+/// `core2 <hex line 1> <hex line 2>`: the REPL's way of compiling a second line — a fresh
+/// instruction stream in the carried state (symbol table, constant pool, globals); see
+/// `run_prompt` in src/main.rs.  Prints the second line's code, the whole pool, the globals.
+pub fn core2(rest: &str) -> String {
+    let mut it = rest.trim().split(' ');
+    let (Some(h1), Some(h2)) = (it.next(), it.next()) else { return "bad-op".into() };
+    let (Some(s1), Some(s2)) = (wire::unhex(h1).and_then(|b| String::from_utf8(b).ok()), wire::unhex(h2).and_then(|b| String::from_utf8(b).ok())) else {
+        return "bad-op".into();
+    };
+    let c1 = match compile_src(&s1) {
+        Err(e) => return format!("line1 {}", e),
+        Ok(c) => c,
+    };
+    let bc1 = c1.bytecode();
+    let mut vm1 = VM::new(bc1);
+    if let Err(e) = vm1.run() {
+        return format!("line1 rterr {}", e.line);
+    }
+    let mut parser = Parser::new(Scanner::new(&s2));
+    let prog = parser.parse_program();
+    if !parser.parse_errors().is_empty() {
+        return "line2 perr".into();
+    }
+    let mut c2 = Compiler::new_with_state(c1.symtab, c1.constants);
+    if let Err(e) = c2.compile(prog) {
+        return format!("line2 cerr {}", wire::hex(format!("{}", e).as_bytes()));
+    }
+    let n = c2.symtab.get_num_definitions();
+    let bc2 = c2.bytecode();
+    let code = nums(&bc2.instructions.code);
+    let consts: Vec<String> = bc2.constants.iter().map(|o| dump_const(o)).collect();
+    let mut vm2 = VM::new_with_global_store(bc2, vm1.globals);
+    let r = vm2.run();
+    let gs: Vec<String> = (0..n).map(|i| wire::enc(&vm2.globals[i])).collect();
+    match r {
+        Ok(()) => format!("code=[{}] consts=[{}] ok g=[{}] last={} sp={}", code, consts.join("|"), gs.join(","), wire::enc(&vm2.last_popped()), vm2.verif_sp()),
+        Err(e) => format!("code=[{}] consts=[{}] rterr {}", code, consts.join("|"), e.line),
+    }
+}
